@@ -1,6 +1,7 @@
 SPECIFICATION Spec
 CONSTANTS
   Names = {1, 2, 3}
+  NValues = 3
   MaxEnv = 10
   MaxInc = 3
   MaxRaise = 1
